@@ -9,45 +9,10 @@ a suppressed function (`scan_marked_prog_sharp`).
 -/
 namespace CL.Marks
 
-/-- the function / block invariant needs the structural conditions only -/
-theorem tinv_of_wfCore : ∀ (p : Prog Tok) (i : Nat), p.wfCore = true →
-    TInv i (i + p.size) (fnsOf p i) (blocksOf p i)
-  | .nil, i, _ => TInv.nil _ _
-  | .leaf _ rest, i, h => by
-    simp only [Prog.wfCore, Bool.and_eq_true] at h
-    have := tinv_of_wfCore rest (i + 1) h.2
-    simp only [Prog.size, fnsOf, blocksOf]
-    exact this.mono (by omega) (by omega)
-  | .group _ _ items rest, i, h => by
-    simp only [Prog.wfCore, Bool.and_eq_true] at h
-    have h1 := (tinv_of_wfCore items (i + 1) h.1.2).wrap (by omega)
-    have h2 := tinv_of_wfCore rest (i + items.size + 2) h.2
-    rw [show i + 1 + items.size + 1 = i + items.size + 2 by omega] at h1
-    have := h1.append h2 (by omega) (by omega)
-    simp only [Prog.size, fnsOf, blocksOf]
-    rw [show i + (items.size + rest.size + 2) = i + items.size + 2 + rest.size by omega]
-    exact this
-  | .fn hdr k gap _ _ body rest, i, h => by
-    simp only [Prog.wfCore, Bool.and_eq_true, decide_eq_true_eq] at h
-    obtain ⟨⟨⟨⟨⟨⟨⟨⟨⟨hsl, hnf⟩, hwh⟩, hk⟩, hnm⟩, hgap⟩, hop⟩, hcl⟩, hwb⟩, hwr⟩ := h
-    have hH := tinv_of_wfCore hdr i hwh
-    rw [fnsOf_noFn hdr i hnf] at hH
-    have hH' : TInv (i + 1) (i + hdr.size) [] (blocksOf hdr i) :=
-      ⟨fun _ h => (by cases h),
-       fun b hb => (by
-         have := hH.bb b hb; have := blocksOf_startsWithLeaf hsl i b hb; omega),
-       .nil, hH.bs, fun _ h => (by cases h), fun _ h => (by cases h)⟩
-    have hpos := Prog.size_pos_of_startsWithLeaf hsl
-    have hB := tinv_of_wfCore body (i + hdr.size + gap.length + 1) hwb
-    have hR := tinv_of_wfCore rest (i + hdr.size + gap.length + body.size + 2) hwr
-    have hF := TInv.fn (nm := hdr.flat.getD k default) (lo := i) (he := i + hdr.size)
-      (bs := i + hdr.size + gap.length) (be := i + hdr.size + gap.length + body.size + 2)
-      hH' (hB.mono (Nat.le_refl _) (by omega)) (by omega) (by omega) (by omega)
-    have := hF.append hR (by omega) (by omega)
-    simp only [Prog.size, fnsOf, blocksOf]
-    rw [show i + (hdr.size + gap.length + body.size + rest.size + 2)
-      = i + hdr.size + gap.length + body.size + 2 + rest.size by omega]
-    simpa only [List.cons_append, List.append_assoc] using this
+/-- the function / block invariant needs the structural conditions only
+(`CL.tinv_of_wfCore`, `Lemmas/ProgTreeBasic.lean`) -/
+theorem tinv_of_wfCore (p : Prog Tok) (i : Nat) (h : p.wfCore = true) :
+    TInv i (i + p.size) (fnsOf p i) (blocksOf p i) := CL.tinv_of_wfCore p i h
 
 /-- no function body starts at the token directly after another function's body -/
 theorem tinv_bodies_apart {lo hi : Nat} {F : List Fn} {B : List Range} (h : TInv lo hi F B) :
